@@ -830,29 +830,27 @@ fn check_both(c: &Case) -> CheckResult {
 }
 
 pub fn fuzz_targets() -> Vec<crate::fuzz::Target> {
-    use crate::fuzz::{from_bytes, from_strategy};
-    vec![
-        from_bytes(
-            "c02_bytes",
-            "C02",
-            "both-replay",
-            |data: &[u8]| {
-                // first byte picks the reader mode, the rest is the wire input verbatim
-                let (m, rest) = data.split_first()?;
-                let mode = match m % 4 {
-                    0 => ReaderMode::Cursor,
-                    1 => ReaderMode::Dribble(1 + m / 4 % 7),
-                    2 => ReaderMode::Dribble(48),
-                    _ => ReaderMode::FailAt((*m as u16 / 4) * 3),
-                };
-                Some(Case {
-                    input: Input::Literal { hex: rest.iter().map(|b| format!("{b:02x}")).collect() },
-                    mode,
-                })
-            },
-            check_both,
-        ),
-        from_strategy("c02_hdr", "C02", "both-replay", case_hdr, check_both),
-        from_strategy("c02_frames", "C02", "both-replay", case_g1g2, check_both),
-    ]
+    use crate::fuzz::from_bytes;
+    vec![from_bytes(
+        "c02_bytes",
+        "C02",
+        "both-replay",
+        |data: &[u8]| {
+            // first byte picks the reader mode, the rest is the wire input verbatim
+            let (m, rest) = data.split_first()?;
+            let mode = match m % 4 {
+                0 => ReaderMode::Cursor,
+                1 => ReaderMode::Dribble(1 + m / 4 % 7),
+                2 => ReaderMode::Dribble(48),
+                _ => ReaderMode::FailAt((*m as u16 / 4) * 3),
+            };
+            Some(Case {
+                input: Input::Literal {
+                    hex: rest.iter().map(|b| format!("{b:02x}")).collect(),
+                },
+                mode,
+            })
+        },
+        check_both,
+    )]
 }
